@@ -9,7 +9,7 @@ namespace ForML.Flow
 open CState Segment
 
 theorem compile_denotes {g : Segment} {A : Option Assets} {rank : Uid → Nat} {order : List Uid}
-    (hwf : g.wf rank = true) (hA : g.assetsOK A = true) (hl : g.linked A = true) (hperm : order.Perm g.uids) :
+    (hwf : g.wf rank = true) (hA : g.assetsOK A = true) (hperm : order.Perm g.uids) :
     ∃ t, compile g A order = .ok t ∧ Denotes g A t ∧ (t.map (·.id)).Nodup := by
   have h := wf_WF hwf
   have hA' := assetsOK_AssetsOK hA
@@ -18,7 +18,7 @@ theorem compile_denotes {g : Segment} {A : Option Assets} {rank : Uid → Nat} {
   refine ⟨emitted g A (addAll g A order), ?_, hf.emitted_denotes h hA' ho, hf.emitted_nodup h hA' ho⟩
   unfold compile
   simp only [hf.ok]
-  exact hf.emit_ok h hA' ho hl
+  exact hf.emit_ok h hA' ho
 
 theorem nodup_of_nodup_map {α β : Type} (f : α → β) {l : List α} (h : (l.map f).Nodup) : l.Nodup := by
   induction l with
